@@ -269,3 +269,75 @@ def gen_histories_c15(tier, rnd):
         lines.append('C %s %s #grp=h%d' % (hx(t), DEV, i))
     return lines, {'rule': '%d random expressions (biased to many matchers, printers and time tests), each parsed+compiled+rendered three times in one process, interleaved in random order with the others; the same stream is then run in two more fresh processes and compared observation by observation (clock readings normalised); non-trivial = every request' % n,
                    'streams': {'histories': len(lines)}}
+
+
+# ------------------------------------------------------------------ C02
+
+def gen_trees(tier, rnd):
+    from streams import SIZES, TIMES, FILETYPES, FIELDS0, SPECIALS0
+    lines = []
+    counts = {}
+    def add(tree, fam):
+        lines.append(T(tree))
+        counts[fam] = counts.get(fam, 0) + 1
+    cmps = ['GT', 'LT', 'EQ']
+    nums = [0, 1, 2, 5, 1000, 2 ** 31, 2 ** 32 - 1]
+    # every supported test, every comparison, boundary-rich constants
+    for c in cmps:
+        for u in SIZES:
+            for n in [0, 1, 2, 3, 1000, 2 ** 20, 2 ** 44 - 1, 2 ** 54, 2 ** 64 - 1]:
+                add('(T (Size (%s (%s %d))))' % (c, u, n), 'size')
+        for fld in ['AccessTime', 'ChangeTime', 'ModifyTime']:
+            for u in TIMES:
+                for n in [0, 1, 2, 7, 365, 10 ** 6, 2 ** 40, 2 ** 64 - 1]:
+                    add('(T (%s (%s (%s %d))))' % (fld, c, u, n), 'time')
+        for fld in ['GroupId', 'InodeNumber', 'MirrorCount', 'StripeCount', 'UserId', 'Links']:
+            for n in nums + ([2 ** 63, 2 ** 64 - 1] if fld == 'Links' else []):
+                add('(T (%s (%s %d)))' % (fld, c, n), 'ids')
+    for kind in ['AtLeast', 'Any', 'Equal']:
+        for m in [0, 0o777, 0o7777, 0o644, 0o4000, 0o2000, 0o1000, 0o400, 0o040, 0o004, 0o111, 0o222] + [rnd.randint(0, 4095) for _ in range(20)]:
+            add('(T (Perm (%s %d)))' % (kind, m), 'perm')
+    for k in range(1, 4):
+        for combo in itertools.combinations(FILETYPES, k):
+            add('(T (Type (# %s)))' % ' '.join(combo), 'type')
+    add('(T (Type (# File File)))', 'type')
+    strs = ['a', 'foo', 'x*', 'f?o', '[ab]c', 'A', 'Foo', 'é', 'a b', 'p"q', 'b\\s', 't~d', '', '*', 'dir/foo', 'dir/*', "q'r"]
+    for s in strs:
+        for fld in ['Name', 'InsensitiveName', 'Path', 'InsensitivePath', 'Pool', 'Xattr']:
+            add('(T (%s %s))' % (fld, sx_str(s)), 'names')
+        for v in ['v', 'v*', "v'", '']:
+            add('(T (XattrMatch %s %s))' % (sx_str(s), sx_str(v)), 'names')
+    for t in ['Empty', 'Executable', 'Readable', 'Writable', 'True', 'False']:
+        add('(T %s)' % t, 'flags')
+        add('(Not (T %s))' % t, 'flags')
+    # every action, every supported field and escape
+    files = ['out', 'o"2']
+    acts = ['Print', 'PrintNull', 'PrintFid', 'Quit', 'DefaultPrint'] + ['(FilePrint %s)' % sx_str(f) for f in files] + ['(FilePrintNull %s)' % sx_str(f) for f in files]
+    for a in acts:
+        add('(A %s)' % a, 'actions')
+    fields = [f for f in FIELDS0 if f not in UNSUPPORTED_FIELDS]
+    fitems = ['(Fld %s)' % f for f in fields] + ['(Fld (%s c%d))' % (k, ord(c)) for k in ['AccessFormatted', 'ChangeFormatted', 'ModifyFormatted'] for c in ['@', 'k', 'Y', '"', '~']] \
+        + ['(Fld (XAttr %s))' % sx_str(s) for s in ['user.a', 'p"q', 'none']] \
+        + ['(Spc %s)' % s for s in SPECIALS0 if s != 'Clear'] + ['(Spc (Ascii %d))' % v for v in [0, 10, 34, 65, 92, 126, 127, 255]] \
+        + ['(Lit %s)' % sx_str(s) for s in ['a', '~', '~a', '%', 'x\ny', 'p"q', 'b\\s', '~~', 'é', ' ']]
+    for it in fitems:
+        add('(A (PrintFormatted (# %s)))' % it, 'formats')
+        add('(A (PrintFormatted (# (Lit %s) %s (Spc Newline))))' % (sx_str('<'), it), 'formats')
+        add('(A (FilePrintFormatted %s (# %s (Fld Name))))' % (sx_str('out'), it), 'formats')
+    for _ in range(300 if tier == 'quick' else 5000):
+        k = rnd.randint(2, 7)
+        add('(A (PrintFormatted (# %s)))' % ' '.join(rnd.choice(fitems) for _ in range(k)), 'formats')
+    # operators: exhaustive small trees (short-circuit, order of outputs, stop)
+    leaves = ['(T True)', '(T False)', '(T (Name %s))' % sx_str('foo'), '(T (Size (GT (KiloByte 3))))', '(A Print)', '(A Quit)',
+              '(A (FilePrint %s))' % sx_str('out'), '(A (PrintFormatted (# (Fld DiskSizeBytes) (Spc Newline))))']
+    for t in small_trees(4 if tier == 'quick' else 5, leaves):
+        add(t, 'small_trees')
+    # random larger trees over everything supported
+    for _ in range(3000 if tier == 'quick' else 60000):
+        add(rand_expr(rnd, rnd.randint(1, 6), supported_only=True, parser_shapes_only=True, p_action=rnd.choice([0, 0.1, 0.3, 0.5])), 'random')
+    # through the parser as well
+    for _ in range(300 if tier == 'quick' else 3000):
+        lines.append('C %s %s' % (hx(rand_compilable_text(rnd)), DEV))
+        counts['text'] = counts.get('text', 0) + 1
+    return lines, {'rule': 'every supported test x every comparison x boundary-rich constants (sizes in all 7 units up to 2^64-1, times in all 4 units, ids, 32 permission masks x 3 checks, type lists, 17 names x 6 string tests, xattr pairs, flags), every action, every supported directive/escape/literal alone and embedded plus random formats, ALL operator trees with at most %d nodes over 8 leaves (tests, print, fprint, printf, quit), random trees of depth <= 6 over all supported constructs, and texts through the parser; each program is executed on the base file, one file per variation directed at each constant of the tree (value-1/value/value+1 per unit, each permission/type bit, matching and near-miss names, zero size, future time stamps) and 8 pseudo-random combinations; non-trivial = every request' % (4 if tier == 'quick' else 5),
+                   'streams': counts}
